@@ -12,7 +12,7 @@ from .. import pse
 
 BEHAVIOURS = ["conn-error", "timeout-exc", "http-500", "json-invalid", "json-null", "json-list", "json-no-tag",
               "tag:v99.0.0", "tag:99.0.0", "tag:0.0.1", "tag:99.0.0rc1", "tag:99.0.0.dev1", "tag:garbage", "tag:",
-              "tag:release-99.1", "tag:v1.1.2026092714223300000-nightly", "tag:" + "9" * 400, "tag:1." * 60 + "x"]
+              "tag:release-99.1", "tag:v1.1.2026092714223300000000-nightly", "tag:" + "9" * 400, "tag:1." * 60 + "x"]
 HANG = 10 ** 9
 LATENCIES = [0, 300, 900, 2500, 4000, 60000]
 
@@ -103,7 +103,7 @@ def model(sym):
             # command needs as well: in the worst case (C code that does not release it) the command stalls for that long
             burnt = int((time.process_time() - t_cpu) * 1000)
             if burnt > 400:
-                st["delay"] = st["delay"] + burnt
+                st["delay"] = st["delay"] + 5000  # a fixed amount: the decision tree must not depend on the measured value
 
     class Spy(U.Updater):
         def start(self):
